@@ -633,6 +633,7 @@ class HierApplyFilter(Contract):
                                  "_check_parent_filter", "RTDCBase.apply_filter"])),
                  ("the configuration is updated from the parent", z3.BoolVal("_update_config" in log))]
         if isinstance(idx, SArr):
+            posts.append(("the cached index is handed out read-only", z3.BoolVal(idx.writeable is False)))
             posts.append(("index enumerates 1..len(child)",
                           z3.And(idx.n == g.n.e, z3.ForAll([k], z3.Implies(z3.And(k >= 0, k < idx.n),
                                                                            idx.sel(k) == k + 1)))))
